@@ -181,7 +181,7 @@ def isolate_death(cases, workdir):
     return (lo[0] if lo else None), how, log
 
 
-def run_cases(cases, workdir, tag, threads=16, verbose_ids=None):
+def run_cases(cases, workdir, tag, threads=16, verbose_ids=None, owned_file=None):
     os.makedirs(workdir, exist_ok=True)
     tsv = os.path.join(workdir, tag + ".tsv")
     _write_tsv(cases, tsv)
@@ -194,7 +194,44 @@ def run_cases(cases, workdir, tag, threads=16, verbose_ids=None):
             raise EngineDied(m.group(1).split("\t"), "does not terminate (no answer within the per-case time limit)", out[-2000:])
         case, how, log = isolate_death(cases, workdir)
         raise EngineDied(case, how, (log or out)[-3000:])
-    rc, out = sh([os.path.join(LEAN, ".lake", "build", "bin", "driver"), cases_file])
+    results, other = _drive(cases_file, owned_file)
+    if owned_file is None:
+        # inert attributes of the macro's own on generated items (Obs.stripOwned): an inert built-in attribute found on
+        # a generated item of some case whose input does not contain it is the macro's, not a copy of the user's;
+        # the correspondence is taken up to exactly those (second pass of the driver)
+        seen = {}
+        for d in results.values():
+            for ent in [x for x in d.get("XA", "").split(",") if x]:
+                h, _, u = ent.partition(":")
+                seen.setdefault(h, set()).add(u)
+        owned = sorted(h for h, us in seen.items() if "0" in us)
+        LAST_OWNED[:] = []
+        if owned:
+            ofile = os.path.join(workdir, tag + ".owned")
+            with open(ofile, "w") as f:
+                for h in owned:
+                    f.write(bytes.fromhex(h).decode() + "\n")
+            LAST_OWNED[:] = [bytes.fromhex(h).decode() for h in owned]
+            LAST_OWNED_FILE[0] = ofile
+            results, other = _drive(cases_file, ofile)
+        else:
+            LAST_OWNED_FILE[0] = None
+    return results, cases_file, other
+
+
+LAST_OWNED = []          # wire text of the macro-owned inert attributes of the last run_cases
+LAST_OWNED_FILE = [None]
+
+
+def _drive(cases_file, owned_file=None, verbose=False):
+    cmd = [os.path.join(LEAN, ".lake", "build", "bin", "driver")]
+    if verbose:
+        cmd.append("--verbose")
+    if owned_file:
+        cmd.append("--owned=" + owned_file)
+    rc, out = sh(cmd + [cases_file])
+    if verbose:
+        return out
     if rc != 0:
         raise RuntimeError("driver failed: " + out[-2000:])
     results = {}
@@ -205,7 +242,7 @@ def run_cases(cases, workdir, tag, threads=16, verbose_ids=None):
             results[d["id"]] = d
         elif line:
             other.append(line)
-    return results, cases_file, other
+    return results, other
 
 
 def verbose_dump(cases_file, cid, workdir):
@@ -216,8 +253,7 @@ def verbose_dump(cases_file, cid, workdir):
             if line.startswith("[case n:%s " % cid):
                 g.write(line)
                 break
-    rc, out = sh([os.path.join(LEAN, ".lake", "build", "bin", "driver"), "--verbose", one])
-    return out
+    return _drive(one, LAST_OWNED_FILE[0], verbose=True)
 
 
 # ---------------------------------------------------------------------------------------------
@@ -245,6 +281,9 @@ def write_replay(workdir, prop, n, case, dump, why):
             f.write("AMBIENT\tenv\t%s=1\n" % m.group(1))
         if "clock or the process id" in why:
             f.write("AMBIENT\tshim\tENTRAIT_VERIF_TIME_SHIFT=333333333\tENTRAIT_VERIF_PID_XOR=21845\n")
+        for o in LAST_OWNED:
+            # inert attributes the macro was seen to add by itself in the run that produced this replay
+            f.write("OWNED\t" + o + "\n")
         f.write(dump)
     return path
 
@@ -327,6 +366,9 @@ def run_check(prop, tier, seed):
     by_id = {c[0]: c for c in cases}
     try:
         results, cases_file, other = run_cases(cases, workdir, "main")
+        if LAST_OWNED:
+            print("NOTE: property=%s inert attributes the macro puts on generated items by itself (correspondence taken up to them): %s"
+                  % (prop, "; ".join(o[:60] for o in LAST_OWNED[:6])))
     except EngineDied as e:
         # the macro takes the whole process down (or never returns) on an input: no expansion exists for it
         path = os.path.join(workdir, "replay_%s_0.txt" % prop)
@@ -344,7 +386,8 @@ def run_check(prop, tier, seed):
         if not line.startswith("LEXERR"):
             no_input_reasons.append("driver: " + line[:200])
 
-    stats = {"outcomes": {}, "modes": {}, "unobservable": 0, "unmodelled": 0, "normalised_inputs": 0,
+    stats = {"macro_owned_inert_attributes": list(LAST_OWNED),
+             "outcomes": {}, "modes": {}, "unobservable": 0, "unmodelled": 0, "normalised_inputs": 0,
              "findings_seen": {}, "k_break": 0, "p_real_false": 0, "agree_break": 0}
     nontrivial = set()
     failing = []
@@ -594,7 +637,13 @@ def replay(prop, path):
     workdir = os.path.join(WORK, prop + "_replay")
     os.makedirs(workdir, exist_ok=True)
     try:
-        results, cases_file, _ = run_cases([tuple(case)], workdir, "replay", threads=1)
+        owned = [l.rstrip("\n").split("\t", 1)[1] for l in open(path) if l.startswith("OWNED\t")]
+        ofile = None
+        if owned:
+            ofile = os.path.join(workdir, "replay.owned")
+            open(ofile, "w").write("\n".join(owned) + "\n")
+        LAST_OWNED_FILE[0] = ofile
+        results, cases_file, _ = run_cases([tuple(case)], workdir, "replay", threads=1, owned_file=ofile or "")
     except EngineDied as e:
         print("the real macro %s on this input" % e.how)
         print("VIOLATION property=%s replay=%s" % (prop, path))
